@@ -8,11 +8,13 @@
 #     waiting input once the selected one is idle,
 #   * idle <=> no input offers data.
 # The statement does not say whether the new selection becomes effective in the cycle in which the old input is seen
-# idle (combinational hand-over) or with the next clock edge (registered hand-over), nor which input is selected
-# out of reset, so the reference is a *set* of candidates (convention, sel) pruned by what is observed; a violation
-# is an observation no candidate explains.  Independently of any convention, every cycle is also checked for
-# "accepted exactly once": the set of inputs that see valid&ready must be exactly the one word the source hands
-# over in that cycle.
+# idle (combinational hand-over) or with the next clock edge (registered hand-over), which input is selected out of
+# reset, or where the selection parks while nobody offers data, so the reference is a *set* of candidates
+# (convention, sel, why-selected) pruned by what is observed; a violation is an observation no candidate explains.
+# When the DUT still behaves like a well-formed arbiter that merely selected another input, the rule says which clause
+# it broke (switched-while-valid-held / not-highest-priority-waiting); otherwise it names the broken connection.
+# Independently of any convention, every cycle is also checked for "accepted exactly once": the set of inputs that
+# see valid&ready must be exactly the one word the source hands over in that cycle, unmodified.
 from rtlmc.model import Design, Violation
 from rtlmc.explore import Spec
 
